@@ -785,9 +785,10 @@ class ContextStateTransaction(_TransactionBase):
             tmp = copy.deepcopy(state_container)
 
             if old_state is None:
-                # this is a new state
-                tmp.descriptor_container = entity.descriptor
-                tmp.DescriptorVersion = entity.descriptor.DescriptorVersion
+                # this is a new state; it refers to the descriptor in mdib (the entity is a copy that can be outdated)
+                descriptor_container = self._mdib.descriptions.handle.get_one(entity.descriptor.Handle)
+                tmp.descriptor_container = descriptor_container
+                tmp.DescriptorVersion = descriptor_container.DescriptorVersion
                 if adjust_version_counter:
                     self._mdib.context_states.set_version(tmp)
             elif adjust_version_counter:
